@@ -1,3 +1,13 @@
 import sys
-from simq.worker import main
-sys.exit(main())
+import traceback
+
+try:
+    from simq.worker import main
+    rc = main()
+except SystemExit:
+    raise
+except BaseException:
+    traceback.print_exc(file=sys.__stderr__)
+    sys.__stderr__.flush()
+    rc = 1
+sys.exit(rc)
